@@ -56,6 +56,20 @@ CLAIMED["C07"] = dict(
     technique="Kani harness contracts over all strings of bounded length against a reference grammar",
 )
 
+CLAIMED["C08"] = dict(
+    category="model_checking",
+    text="Bounded. Method-level totality contracts: every deserialize_* entry point of the URL-encoded deserializer (bool, integer widths, char, str, String, option, unit, "
+         "seq/tuple, ignored, enum variant, map key/value steps) is called through serde's own primitive impls on an ARBITRARY cursor (every input of each length 0..4, both parsing "
+         "sides): it returns Ok or Err with CBMC's generated obligations discharged (no panic, no unwrap on Err/None, no overflow, every from_raw_parts inside the input), the cursor "
+         "stays a suffix of the input, yielded strings are valid UTF-8 (independent validator) and borrowed strings lie inside the input. Cookie valid::name / valid::value for every "
+         "input up to 5 bytes plus the escape template %XY.",
+    design_ref="DESIGN.md §4 C08",
+    note="Bounded by input length (<= 4-5 bytes). percent-encoding crate replaced by an assumed contract (reference decoder); serde visitors executed, not specified; floats excluded; "
+         "derived Deserialize glue, multipart parser, Set-Cookie parsing and QueryParams::iter are not under contract in this check (multipart: C10). "
+         "Two genuine defects found by these obligations were repaired (fix: 019e014, c84dc34).",
+    technique="Kani harness contracts per deserializer method over all short inputs; CBMC-generated safety obligations + UTF-8 / sub-slice postconditions; dependency stubbed by assumed contract",
+)
+
 NOT_APPLICABLE = {
 }
 
